@@ -16,6 +16,7 @@ fn main()
 		Some("value-types") => generated::value_types::run(&args[2..]),
 		Some("resolver-eval") => generated::value_types::run_resolver(),
 		Some("lint-eval") => generated::value_types::run_lint(),
+		Some("call-eval") => generated::value_types::run_call(),
 		Some("container-eval") => generated::value_types::run_containers(),
 		Some("typer-eval") => generated::value_types::run_typer(),
 		Some("lexdiff") => lexdiff::run(&args[2..]),
